@@ -56,7 +56,7 @@ func getContents(v reflect.Value) []byte {
 		return out
 	}
 	if b := v.FieldByName("Buffer"); b.IsValid() {
-		return b.Bytes()
+		return append([]byte{}, b.Bytes()...) // a snapshot, never the slice itself
 	}
 	return nil
 }
@@ -129,6 +129,12 @@ func opAcc(args []string) string {
 }
 
 func runAccR(typ, field string, contents, val []byte) (get0, after, get1 []byte, il [4]uint64, ok bool) {
+	get0, after, get1, il, ok, _ = runAccRA(typ, field, contents, val)
+	return
+}
+
+// runAccRA also reports aliasing between the setter's argument / the getter's result and the element ("" = none)
+func runAccRA(typ, field string, contents, val []byte) (get0, after, get1 []byte, il [4]uint64, ok bool, alias string) {
 	mk, ok := nasTypeRegistry[typ]
 	if !ok {
 		return
@@ -178,8 +184,31 @@ func runAccR(typ, field string, contents, val []byte) (get0, after, get1 []byte,
 	get1 = tob(g.Call(nil)[0])
 	il[2], il[3] = ieiLen(v)
 	ok = true
+	// value semantics: the element must not keep the caller's slice, and a getter's result must not be a window onto the element
+	if arg.Kind() == reflect.Slice && arg.Len() > 0 {
+		av := arg.Bytes()
+		for i := range av {
+			av[i] ^= 0xff
+		}
+		if string(getContents(v)) != string(after) {
+			alias = "the element keeps the caller's slice (writing into the argument afterwards changed the element)"
+		}
+		for i := range av {
+			av[i] ^= 0xff
+		}
+	}
+	if gr := g.Call(nil)[0]; gr.Kind() == reflect.Slice && gr.Len() > 0 && alias == "" {
+		gb := gr.Bytes()
+		for i := range gb {
+			gb[i] ^= 0xff
+		}
+		if string(getContents(v)) != string(after) {
+			alias = "the getter's result is a window onto the element (writing into it changed the element)"
+		}
+	}
 	return
 }
+
 
 // accr <Type> <Field> <contents> <value-hex>
 func opAccR(args []string) string {
@@ -318,7 +347,7 @@ func oracleC09(op string, args []string) string {
 		if hi > len(c) || lo > hi {
 			return skip
 		}
-		g0, after, g1, il, ok := runAccR(args[0], args[1], c, val)
+		g0, after, g1, il, ok, alias := runAccRA(args[0], args[1], c, val)
 		if !ok {
 			return skip
 		}
@@ -342,6 +371,9 @@ func oracleC09(op string, args []string) string {
 		}
 		if il[0] != il[2] || il[1] != il[3] {
 			return "FAIL setter changed the identifier or length"
+		}
+		if alias != "" {
+			return "FAIL " + alias
 		}
 		return "pass"
 	}
